@@ -302,7 +302,31 @@ def eval_interpolate(fn: ast.FunctionDef, a: int, b: int, t: int) -> Optional[st
 
 
 def interpolate_copies(repo: Repo) -> List[FuncInfo]:
-    return [f for f in repo.all_functions() if f.name.split('.')[-1] == 'Interpolate']
+    """The thresholded-interpolation helpers, found by role: the three-argument function that a get_tau copy calls with
+    its MRTS parameter as third argument (nested in get_tau or defined in the same module, whatever it is called)."""
+    out: List[FuncInfo] = []
+    seen = set()
+    for g in get_tau_copies(repo):
+        params = [a.arg for a in g.node.args.args]
+        if not params:
+            continue
+        mrts = params[-1]
+        names = []
+        for n in ast.walk(g.node):
+            if isinstance(n, ast.Call) and isinstance(n.func, ast.Name) and len(n.args) == 3 and not n.keywords \
+                    and isinstance(n.args[2], ast.Name) and n.args[2].id == mrts and n.func.id not in names:
+                names.append(n.func.id)
+        mi = repo.module(g.module)
+        for nm in names:
+            for cand in (f"{g.name}.{nm}", nm):
+                f = mi.functions.get(cand)
+                if f is not None and len(f.node.args.args) == 3 and id(f) not in seen:
+                    seen.add(id(f))
+                    out.append(f)
+                    break
+    if not out:
+        out = [f for f in repo.all_functions() if f.name.split('.')[-1] == 'Interpolate']
+    return out
 
 
 def r03_4_interpolate(ctx, rule: str = 'R03.4') -> List[Ob]:
